@@ -248,3 +248,54 @@ mod tests {
         assert_eq!(r, ChildResult::Done(vec![8]));
     }
 }
+
+/// A private read-write mapping at a chosen address (whole pages around
+/// `[addr, addr + len)`), or `None` when the kernel does not grant exactly
+/// that range. Unmapped on drop.
+pub struct FixedMap {
+    base: *mut u8,
+    pages_len: usize,
+    addr: usize,
+}
+
+impl FixedMap {
+    pub fn new(addr: usize, len: usize) -> Option<Self> {
+        let page = 4096usize;
+        let lo = addr / page * page;
+        let hi = (addr.checked_add(len)?.checked_add(page - 1)?) / page * page;
+        unsafe {
+            let p = libc::mmap(
+                lo as *mut libc::c_void,
+                hi - lo,
+                libc::PROT_READ | libc::PROT_WRITE,
+                libc::MAP_PRIVATE | libc::MAP_ANONYMOUS | libc::MAP_FIXED_NOREPLACE,
+                -1,
+                0,
+            );
+            if p == libc::MAP_FAILED {
+                return None;
+            }
+            if p as usize != lo {
+                libc::munmap(p, hi - lo);
+                return None;
+            }
+            Some(Self { base: p as *mut u8, pages_len: hi - lo, addr })
+        }
+    }
+    /// Copies `bytes` to the chosen address and returns it.
+    pub fn put(&mut self, bytes: &[u8]) -> *mut u8 {
+        assert!(self.addr + bytes.len() <= self.base as usize + self.pages_len);
+        unsafe {
+            std::ptr::copy_nonoverlapping(bytes.as_ptr(), self.addr as *mut u8, bytes.len());
+        }
+        self.addr as *mut u8
+    }
+}
+
+impl Drop for FixedMap {
+    fn drop(&mut self) {
+        unsafe {
+            libc::munmap(self.base as *mut libc::c_void, self.pages_len);
+        }
+    }
+}
